@@ -609,3 +609,47 @@ gcsim("C10", "Out-of-memory and allocation-option contract",
       design_ref="2/C10", shards=c10_shards,
       floors={"quick": {"requests_with_options": 3000, "oom_after_collection": 80, "oom_immediate_larger_than_heap": 800, "null_not_at_safepoint": 500, "null_oom_call_suppressed": 400,
                         "overcommit_success_beyond_heap_size": 100, "requests_that_blocked_for_gc": 150, "heap_fill_rounds": 30}})
+
+
+unit("C17", "Concurrent forwarding copies an object once and all tracers agree",
+     rule="2/3/4/8 real threads (thorough up to 16) released by per-object spin gates on the SAME object run exactly the CopySpace::trace_object / Immix opportunistic-copy sequence through the re-exported object_forwarding functions "
+          "(attempt_to_forward, spin_and_get_forwarded_object, forward_object, clear_forwarding_bits, the real ImmixSpace::attempt_mark and is_object_pinned), 737k objects per quick run; six metadata layouts "
+          "(forwarding bits inside the pointer word at shift 0 / 62 / negative offset - single store; separate header bits - two stores; side bits with 4 objects per metadata byte) x five plans (copyspace, immix-forward, already-marked, pinned, "
+          "copy-reserve-exhausted = winner declines and clears the bits); failpoints widen the window between copy and publish, between the pointer and the bits store, and at the loser's entry; non-trivial = >= 2 contenders observed spinning; "
+          "distinct = (layout, plan, #threads, #spinners, who saw FORWARDED)",
+     technique="exactly-once / agreement checker over the recorded (thread, returned reference) multiset and the copy counter of real racing threads, with failpoint-widened windows",
+     level_text="Per object: ObjectModel::copy called once (0 when the winner declines), exactly one tracer saw the untriggered state, all tracers return the winner's copy (or the unmoved object), no returned word is a stale/half-written pointer or carries state bits; "
+                "final bits/pointer/mark checked. Interleavings = what 2-16 threads on 16 cores plus failpoints produce.",
+     note="The trace_object sequences are replicated by the harness from policy/copyspace.rs and immixspace.rs (each needs a real space and GCWorker); the same property is also observed end-to-end by gcsim (copy count per object per GC in ObjectModel::copy).",
+     design_ref="2/C17", miri=True, parallel=2,
+     floors={"quick": {"objects_traced": 360000, "objects_with_2plus_spinning_contenders": 60000, "objects_where_a_tracer_saw_FORWARDED": 20000, "declined_objects_won_again_after_clear": 100000,
+                       "failpoint_forward_window_hits": 10000, "failpoint_forward_loser_hits": 8000, "selftest_mutants_caught": 10}})
+
+
+def c18_shards(tier, seed):
+    return [dict(pkg="units", variant="A", args=["C18"]), dict(pkg="units", variant="A", args=["C18", "--case", "pin-neighbour"])]
+
+
+unit("C18", "Concurrent mark/log/pin state changes succeed exactly once",
+     rule="204 targets: MarkState::test_and_mark, ImmixSpace::attempt_mark, MarkCompactSpace::test_and_mark/test_and_clear_mark, LargeObjectSpace::test_and_mark (full and nursery, both mark states), ObjectBarrier::log_object through the public "
+          "barrier entry points, pin_object/unpin_object, and a raw load+compare_exchange retry loop on run-time specs of every width; placements: side specs with the racing objects at all 8 (4) positions of a metadata byte and 10 header bindings "
+          "with mark/pin/log at every bit of a shared header byte, LOS bits at every legal offset, negative offsets; (a) 2/3/4/8 racers on one object, (b) racers PLUS neighbour threads that each own another field of the same metadata byte and keep changing it; "
+          "case pin-neighbour: only real transition functions as neighbours (pin/unpin of the adjacent object, mark and log of the same object); ~1M raced objects per quick run; distinct = (target, placement, #racers, neighbour kind, outcome)",
+     technique="exactly-once checker on the return values of real racing threads + neighbour-ownership check (a field only its owner changes must never be seen changed by someone else)",
+     level_text="Per raced object: exactly one thread observed the transition as its own, final state is the transitioned state, no neighbouring field was clobbered, no panic.",
+     note="Interleavings = what up to 8 threads on 16 cores produce in ~1M races; not exhaustive.",
+     design_ref="2/C18", shards=c18_shards, parallel=2,
+     floors={"quick": {"objects_raced_a_racers_only": 250000, "objects_raced_b_with_neighbours": 230000, "neighbour_field_changes_during_races": 2000000, "transitions_won_by_another_racer": 200000,
+                       "targets": 204, "selftest_mutants_caught": 7}})
+
+unit("C24", "Side-metadata tables in use by one configuration never alias",
+     rule="11 plans x 5 compiled VM metadata declarations (all in header; all bits on side in two declaration orders; two mixed placements) = 55 real plan instances (one child process each): every space's SideMetadataContext is exported through a hook, "
+          "every spec's [start, upper bound) computed with public SideMetadataSpec methods; plus a run-time enumeration of all 2^6 in-header/side choices x all declaration orders of the side ones built with the real side_first/side_after const fns "
+          "(652 declarations, 130 accepted by mmtk's own size check) substituted into each plan's exported core sets (1430 configurations); oracle: within a space's context, over the union of all contexts of a plan, and among the VM's declared side specs, "
+          "distinct specs have disjoint ranges; every spec lies inside [base, base + reserved bytes); address_to_meta_address of the first/last region stays inside the spec's own range; exhaustive within the built feature set",
+     technique="runtime enumeration of real plan instances + interval-disjointness oracle over the exported contexts (finite space, enumerated completely for the compiled feature set)",
+     level_text="Every (plan, VM declaration) configuration of the built feature set is instantiated for real and its active spec set checked; VM placements beyond the compiled ones are enumerated on the exported core sets.",
+     note="Feature set of the units binary: vo_bit + object_pinning. A spec listed twice in one list (StickyImmix lists VO_BIT and CHUNK_MARK twice) is one table, not an alias: counted, not a violation. A side forwarding pointer is rejected by mmtk's own size check and is only counted.",
+     design_ref="2/C24", exhaustive=True,
+     floors={"quick": {"plans_created": 55, "spaces_exported": 200, "specs_in_use": 400, "pairs_checked": 4000, "enum_declarations": 652, "enum_declarations_legal": 130, "enum_configurations": 1400,
+                       "enum_pairs_checked": 100000, "selftest_mutants_caught": 10}})
